@@ -222,8 +222,14 @@ where
         use crate::distribution::{ChiSquared, Normal};
 
         let d = Normal::new(0., 1.).unwrap();
-        let s = ChiSquared::new(self.freedom).unwrap();
-        let w = (self.freedom / s.sample(rng)).sqrt();
+        // freedom = inf is the multivariate normal limit: the mixing weight is 1
+        // (the chi-squared variate below would be inf, and inf / inf is NaN)
+        let w = if self.freedom.is_infinite() {
+            1.0
+        } else {
+            let s = ChiSquared::new(self.freedom).unwrap();
+            (self.freedom / s.sample(rng)).sqrt()
+        };
         let (r, c) = self.location.shape_generic();
         let z = OVector::<f64, D>::from_distribution_generic(r, c, &d, rng);
         (w * &self.scale_chol_decomp * z) + &self.location
